@@ -13,7 +13,7 @@ from .wind import WINDF, SOCK_INV, UNTIL, W as SOCKW
 from .lookup import ROW
 
 TC = 'py_ballisticcalc/trajectory_calc/_trajectory_calc.py'
-INTEGRATE_PROPS = ('C01', 'C03', 'C04', 'C11', 'C12', 'C15', 'C18')
+INTEGRATE_PROPS = ('C01', 'C03', 'C04', 'C10', 'C11', 'C12', 'C15', 'C18')
 
 CALC = Obj(tc.TrajectoryCalc,
            _config=config_shape(), gravity_vector=Rec(Vector, x=Const(Fraction(0)), y=Real(hi=0, hi_open=True), z=Const(Fraction(0))),
